@@ -354,7 +354,11 @@ func (s *Store[H]) DeleteRange(ctx context.Context, from, to uint64) error {
 	}
 
 	// Delete the headers without automatic tail updates
-	actualTo, _, deleteErr := s.deleteRangeRaw(ctx, from, to)
+	// A range that reaches the head is deleted sequentially: on a failure the parallel path
+	// reports only the lowest failed height while its workers may already have deleted headers
+	// above it, which is enough to resume a tail-side deletion but would leave the head
+	// pointing at a deleted header.
+	actualTo, _, deleteErr := s.deleteRangeRaw(ctx, from, to, !updateHead)
 	if wipe && deleteErr == nil {
 		if err := s.wipe(ctx); err != nil {
 			return fmt.Errorf("header/store: wipe: %w", err)
@@ -413,6 +417,7 @@ func (s *Store[H]) DeleteRange(ctx context.Context, from, to uint64) error {
 func (s *Store[H]) deleteRangeRaw(
 	ctx context.Context,
 	from, to uint64,
+	allowParallel bool,
 ) (actualTo uint64, missing int, err error) {
 	startTime := time.Now()
 
@@ -458,7 +463,7 @@ func (s *Store[H]) deleteRangeRaw(
 		defer cancel()
 	}
 
-	if to-from < deleteRangeParallelThreshold {
+	if !allowParallel || to-from < deleteRangeParallelThreshold {
 		height, missing, err = s.deleteSequential(deleteCtx, from, to)
 	} else {
 		height, missing, err = s.deleteParallel(deleteCtx, from, to)
